@@ -156,6 +156,19 @@ fn remove_auth_and_integrity_attrs(attributes: &mut StunAttributes) {
     attributes.remove::<MessageIntegritySha256>();
 }
 
+#[cfg(feature = "verif-hooks")]
+impl ShortTermCredentialClient {
+    pub(crate) fn verif_state(&self) -> (String, Vec<TransactionId>) {
+        (
+            format!(
+                "short-term user={:?} key={:?} integrity={:?}",
+                self.user_name, self.key, self.integrity
+            ),
+            self.validator.verif_marked(),
+        )
+    }
+}
+
 #[cfg(test)]
 mod short_term_cred_mech_tests {
     use super::*;
